@@ -2,13 +2,22 @@
    ExtrOcamlBasic only: bool, option, unit, list, prod, sumbool, comparison map
    to OCaml natives; nat, N, Z, positive stay extracted inductives. *)
 Require Import Extraction ExtrOcamlBasic.
-From Xeh Require Import Model.Prelude Model.Bits Model.Codec.
+From Xeh Require Import Model.Prelude Model.Bits Model.Codec Model.Cell Model.Lexer Model.Fmt Model.Vm Model.Words Model.Build Model.Boot Model.F64c.
 Extraction Language OCaml.
-Extraction "model.ml"
+Separate Extraction
   Bits.wfb Bits.abs Bits.bits Bits.iter8 Bits.seek Bits.read Bits.peek Bits.substr Bits.split_at
   Bits.slice Bits.to_bytes Bits.bytestr Bits.to_bytes_with_padding Bits.detach Bits.append
   Bits.insert Bits.invert Bits.eq_with Bits.to_hex_digits Bits.from_bits Bits.from_hex
   Bits.from_bytes Bits.of_bools
   Codec.to_uint Codec.to_int Codec.from_int Codec.to_fbits Codec.from_fbits
   Codec.spec_uint Codec.spec_int Codec.be_layout Codec.le_layout Codec.sext
-  Prelude.wrap128 Prelude.chunk8 Prelude.bits_to_N.
+  Prelude.wrap128 Prelude.chunk8 Prelude.bits_to_N
+  Cell.cell_eqb Cell.cell_cmp Cell.strip Cell.assoc_insert Cell.assoc_remove Cell.assoc_find
+  Cell.insert_tag Cell.remove_tag Cell.get_tag Cell.with_tags
+  Lexer.lex_string Lexer.token_location Lexer.lex_next_nonws Lexer.lex_new
+  Fmt.format_cell Fmt.fmt_cell
+  Vm.run Vm.next Vm.rnext Vm.push_data Vm.pop_data Vm.set_rlog Vm.set_limits Vm.set_meter Vm.set_var Vm.get_var
+  Vm.set_out Vm.data_depth Vm.is_running
+  Words.native_fn Words.w_open_bitstr Words.R_OUTPUT
+  Build.eval Build.compile
+  Boot.boot Boot.fops_with F64c.f64_of_int F64c.f64_to_int F64c.f64_round F64c.f32_to_f64 F64c.f64_to_f32.
